@@ -23,6 +23,9 @@ inductive Scannable : List Char → Prop where
   | str (q : Char) (body r : List Char) : (q = '\'' ∨ q = '"') → StrBody q body → Scannable r →
       Scannable (q :: (body ++ q :: r))
   | braces (inner r : List Char) : Scannable inner → Scannable r → Scannable ('{' :: (inner ++ '}' :: r))
+  | comment (body r : List Char) : (∀ c ∈ body, c ≠ '\n' ∧ c ≠ '\r') → Scannable r →
+      Scannable ('#' :: (body ++ '\n' :: r))
+  | crlf (r : List Char) : Scannable r → Scannable ('\r' :: '\n' :: r)
 
 theorem scanStr_body (q : Char) (hq : q ≠ '\\') (body : List Char) (h : StrBody q body) :
     ∀ (fuel : Nat) (acc rest : List Char), body.length + 1 ≤ fuel →
@@ -86,6 +89,8 @@ theorem scannable_dropWord : ∀ (r : List Char), Scannable r → Scannable (r.d
         | word _ _ _ hr => exact scannable_dropWord r hr
         | str q body r' hq _ _ => rcases hq with rfl | rfl <;> exact absurd hc (by decide)
         | braces _ _ _ _ => exact absurd hc (by decide)
+        | comment _ _ _ _ => exact absurd hc (by decide)
+        | crlf _ _ => exact absurd hc (by decide)
       · simpa [hc] using h
 
 theorem op_not_word {c : Char} (h : isOpChar c = true) : isWord c = false := by
@@ -139,6 +144,25 @@ theorem scan_str (q : Char) (hq : q = '\'' ∨ q = '"') (body : List Char) (hb :
   have hs := scanStr_body q hne body hb f (q :: acc) r hf
   rcases hq with rfl | rfl <;> simp [scanBraces, isBlank, hs]
 
+theorem scan_crlf (f level : Nat) (acc r : List Char) :
+    scanBraces (f + 1) level acc ('\r' :: '\n' :: r) = scanBraces f level ('\n' :: '\r' :: acc) r := by
+  simp [scanBraces, isBlank]
+
+theorem takeWhile_line (body r : List Char) (h : ∀ c ∈ body, c ≠ '\n' ∧ c ≠ '\r') :
+    (body ++ '\n' :: r).takeWhile (fun d => d != '\n' && d != '\r') = body
+      ∧ (body ++ '\n' :: r).dropWhile (fun d => d != '\n' && d != '\r') = '\n' :: r := by
+  induction body with
+  | nil => simp
+  | cons c b ih =>
+    have hc := h c (by simp)
+    have := ih (fun x hx => h x (by simp [hx]))
+    simp [hc.1, hc.2, this.1, this.2]
+
+theorem scan_comment (body : List Char) (h : ∀ c ∈ body, c ≠ '\n' ∧ c ≠ '\r') (f level : Nat) (acc r : List Char) :
+    scanBraces (f + 1) level acc ('#' :: (body ++ '\n' :: r)) = scanBraces f level (body.reverse ++ '#' :: acc) ('\n' :: r) := by
+  have := takeWhile_line body r h
+  simp [scanBraces, isBlank, takeWhileRev_eq, this.1, this.2]
+
 theorem noWord_close (r : List Char) : NoWordStart ('}' :: r) := by
   intro c r' e
   obtain ⟨rfl, _⟩ := List.cons.inj e
@@ -188,6 +212,23 @@ theorem scan_skip : ∀ (n : Nat) (inner : List Char), inner.length ≤ n → Sc
       refine ⟨f', by simp only [List.length_cons, List.length_append]; omega, ?_⟩
       simp only [List.cons_append, List.append_assoc]
       rw [scan_str q hq body hb f level acc (r ++ rest) (by omega), h2]
+      simp
+    | comment body r hb hr =>
+      obtain ⟨f, rfl⟩ : ∃ f, fuel = f + 1 := ⟨fuel - 1, by omega⟩
+      simp only [List.length_cons, List.length_append] at hn hf
+      obtain ⟨f1, rfl⟩ : ∃ f1, f = f1 + 1 := ⟨f - 1, by omega⟩
+      obtain ⟨f', h1, h2⟩ := ih r (by omega) hr f1 level ('\n' :: (body.reverse ++ '#' :: acc)) rest hl (by omega) hw
+      refine ⟨f', by simp only [List.length_cons, List.length_append]; omega, ?_⟩
+      simp only [List.cons_append, List.append_assoc]
+      rw [scan_comment body hb, scan_plain '\n' (by decide), h2]
+      simp
+    | crlf r hr =>
+      obtain ⟨f, rfl⟩ : ∃ f, fuel = f + 1 := ⟨fuel - 1, by omega⟩
+      simp only [List.length_cons] at hn hf
+      obtain ⟨f', h1, h2⟩ := ih r (by omega) hr f level ('\n' :: '\r' :: acc) rest hl (by omega) hw
+      refine ⟨f', by simp only [List.length_cons]; omega, ?_⟩
+      simp only [List.cons_append]
+      rw [scan_crlf, h2]
       simp
     | braces inner' r hi hr =>
       obtain ⟨f, rfl⟩ : ∃ f, fuel = f + 1 := ⟨fuel - 1, by omega⟩
